@@ -345,3 +345,92 @@ Proof.
   eexists. split; [reflexivity|].
   rewrite !map2_length, drape_xy_length, (drape_tops_length bottoms prisms 0 Hwf) by lia. lia.
 Qed.
+
+(* ---------------- DrapeModel: where each centre is ---------------- *)
+Lemma drape_wf_first_ge : forall prisms start p, drape_wf start prisms -> In p prisms -> start <= pfirst p.
+Proof.
+  induction prisms as [|q r IH]; intros start p Hwf Hin; [contradiction|].
+  destruct Hwf as [Hf [Hc Hwf]]. destruct Hin as [<-|Hin]; [lia|]. specialize (IH _ p Hwf Hin). lia.
+Qed.
+
+Lemma drape_wf_end_le : forall prisms start p, drape_wf start prisms -> In p prisms ->
+  pfirst p + pcount p <= start + drape_total prisms.
+Proof.
+  induction prisms as [|q r IH]; intros start p Hwf Hin; [contradiction|].
+  destruct Hwf as [Hf [Hc Hwf]]. simpl. destruct Hin as [<-|Hin]; [lia|]. specialize (IH _ p Hwf Hin). lia.
+Qed.
+
+Lemma drape_xy_nth : forall prisms start pi p l,
+  drape_wf start prisms -> nth_error prisms pi = Some p -> l < pcount p ->
+  nth_error (drape_xy prisms) (pfirst p + l - start) = Some (px p, py p).
+Proof.
+  induction prisms as [|q r IH]; intros start pi p l Hwf Hp Hl; [destruct pi; discriminate|].
+  destruct Hwf as [Hf [Hc Hwf]]. unfold drape_xy in *. simpl flat_map. destruct pi as [|pi]; simpl in Hp.
+  - inversion Hp; subst q. rewrite nth_error_app1 by (rewrite repeat_length; lia).
+    replace (pfirst p + l - start) with l by lia.
+    destruct (nth_error (repeat (px p, py p) (pcount p)) l) as [x|] eqn:E;
+      [|apply nth_error_None in E; rewrite repeat_length in E; lia].
+    apply nth_error_In in E. apply repeat_spec in E. subst x. reflexivity.
+  - pose proof (drape_wf_first_ge r _ p Hwf (nth_error_In _ _ Hp)) as Hge.
+    rewrite nth_error_app2 by (rewrite repeat_length; lia). rewrite repeat_length.
+    replace (pfirst p + l - start - pcount q) with (pfirst p + l - (start + pcount q)) by lia.
+    apply (IH (start + pcount q) pi p l Hwf Hp Hl).
+Qed.
+
+Lemma drape_slice_length (bottoms : list Q) first c : first + c <= length bottoms -> length (slice bottoms first c) = c.
+Proof. intros H. unfold slice. rewrite firstn_length, skipn_length. lia. Qed.
+
+Lemma drape_tops_cons q r bottoms :
+  drape_tops (q :: r) bottoms = (ptop q :: drape_slice bottoms (pfirst q) (pcount q)) ++ drape_tops r bottoms.
+Proof. reflexivity. Qed.
+
+Lemma drape_tops_nth bottoms : forall prisms start pi p l,
+  drape_wf start prisms -> start + drape_total prisms <= length bottoms ->
+  nth_error prisms pi = Some p -> l < pcount p ->
+  nth_error (drape_tops prisms bottoms) (pfirst p + l - start)
+  = match l with O => Some (ptop p) | S l' => nth_error bottoms (pfirst p + l') end.
+Proof.
+  induction prisms as [|q r IH]; intros start pi p l Hwf Hle Hp Hl; [destruct pi; discriminate|].
+  destruct Hwf as [Hf [Hc Hwf]]. simpl in Hle. rewrite drape_tops_cons.
+  destruct (pcount q) as [|cq] eqn:Ecq; [lia|]. unfold drape_slice.
+  assert (Lb : length (ptop q :: slice bottoms (pfirst q) cq) = S cq)
+    by (simpl; rewrite drape_slice_length by lia; reflexivity).
+  destruct pi as [|pi]; simpl in Hp.
+  - inversion Hp; subst q. rewrite nth_error_app1 by (rewrite Lb; lia).
+    replace (pfirst p + l - start) with l by lia. destruct l as [|l']; [reflexivity|]. simpl.
+    unfold slice. rewrite nth_error_firstn_lt by lia. apply nth_error_skipn_add.
+  - pose proof (drape_wf_first_ge r _ p Hwf (nth_error_In _ _ Hp)) as Hge.
+    rewrite nth_error_app2 by (rewrite Lb; lia). rewrite Lb.
+    replace (pfirst p + l - start - S cq) with (pfirst p + l - (start + S cq)) by lia.
+    apply (IH (start + S cq) pi p l Hwf ltac:(lia) Hp Hl).
+Qed.
+
+(* layer l of prism p: horizontal position of the prism, elevation = mid point between its top (the prism top for the
+   first layer, the bottom of the layer above otherwise) and its bottom *)
+Lemma drape_centroid_nth prisms bottoms pi p l bot :
+  drape_wf 0 prisms -> drape_total prisms = length bottoms ->
+  nth_error prisms pi = Some p -> l < pcount p -> nth_error bottoms (pfirst p + l) = Some bot ->
+  exists cs top, drape_centroids prisms bottoms = Ok cs
+    /\ match l with O => top = ptop p | S l' => nth_error bottoms (pfirst p + l') = Some top end
+    /\ nth_error cs (pfirst p + l) = Some (px p, py p, ((top + bot) / 2)%Q).
+Proof.
+  intros Hwf Htot Hp Hl Hbot.
+  destruct (drape_n_centroids prisms bottoms Hwf Htot) as [cs [Hcs _]].
+  pose proof (drape_xy_nth prisms 0 pi p l Hwf Hp Hl) as Hxy. rewrite Nat.sub_0_r in Hxy.
+  pose proof (drape_tops_nth bottoms prisms 0 pi p l Hwf ltac:(lia) Hp Hl) as Htop. rewrite Nat.sub_0_r in Htop.
+  assert (Hex : exists top, nth_error (drape_tops prisms bottoms) (pfirst p + l) = Some top
+                  /\ match l with O => top = ptop p | S l' => nth_error bottoms (pfirst p + l') = Some top end).
+  { destruct l as [|l'].
+    - exists (ptop p). split; [exact Htop|reflexivity].
+    - destruct (nth_error bottoms (pfirst p + l')) as [t|] eqn:E.
+      + exists t. split; [exact Htop|reflexivity].
+      + apply nth_error_None in E. assert (pfirst p + S l' < length bottoms) by (apply nth_error_Some; congruence). lia. }
+  destruct Hex as [top [Ht Hspec]].
+  exists cs, top. split; [exact Hcs|]. split; [exact Hspec|].
+  unfold drape_centroids in Hcs.
+  destruct (Nat.eqb (length (drape_tops prisms bottoms)) (length bottoms)
+            && Nat.eqb (length (drape_xy prisms)) (length bottoms)); [|discriminate].
+  inversion Hcs; subst cs.
+  apply (nth_error_map2 (fun '(x, y) z => (x, y, z))) with (a := (px p, py p)) (b := ((top + bot) / 2)%Q); [exact Hxy|].
+  apply (nth_error_map2 (fun t b => ((t + b) / 2)%Q)); assumption.
+Qed.
